@@ -58,8 +58,34 @@ func freePort() int {
 	panic("no free port below the ephemeral range")
 }
 
+// newHTTPClient: keep-alive connections, closed with RST (SO_LINGER 0) so that the thousands of short-lived
+// loopback connections of a run do not pile up in TIME_WAIT and exhaust the ephemeral port range.
 func newHTTPClient() *http.Client {
-	return &http.Client{Timeout: 120 * time.Second, Transport: &http.Transport{MaxIdleConnsPerHost: 4, IdleConnTimeout: 30 * time.Second}}
+	d := &net.Dialer{Timeout: 10 * time.Second}
+	tr := &http.Transport{MaxIdleConnsPerHost: 4, IdleConnTimeout: 30 * time.Second,
+		DialContext: func(ctx context.Context, network, addr string) (net.Conn, error) {
+			c, err := d.DialContext(ctx, network, addr)
+			if tc, ok := c.(*net.TCPConn); ok && err == nil {
+				tc.SetLinger(0)
+			}
+			return c, err
+		}}
+	return &http.Client{Timeout: 120 * time.Second, Transport: tr}
+}
+
+// listenLow listens on a port below the ephemeral range (see freePort).
+func listenLow() (net.Listener, error) {
+	var lastErr error
+	for i := 0; i < 2000; i++ {
+		n := portCounter.Add(1)
+		p := 12000 + int((int64(os.Getpid())*131+n*7)%19000)
+		l, err := net.Listen("tcp4", fmt.Sprintf("127.0.0.1:%d", p))
+		if err == nil {
+			return l, nil
+		}
+		lastErr = err
+	}
+	return nil, lastErr
 }
 
 // StartSrv starts the server and waits until /api/version answers.
